@@ -338,8 +338,9 @@ def d3(ctx, rep):
     cdf = uni.methods['_constant_cumulative_distribution']
     step = [c for c in walk_no_nested(cdf.node) if isinstance(c, ast.Compare) and len(c.ops) == 1
             and any(is_self_attr(x, cdf.self_name, '_constant_value') for x in ast.walk(c))]
-    ones = any(isinstance(c, ast.Call) and call_name(c) == 'ones' for c in walk_no_nested(cdf.node))
-    zeros = any(isinstance(c, ast.Call) and call_name(c) == 'zeros' for c in walk_no_nested(cdf.node))
+    # ones(shape) / ones_like(X, dtype=float); an integer-typed ones_like would still hold 0 and 1 exactly
+    ones = any(isinstance(c, ast.Call) and call_name(c) in ('ones', 'ones_like') for c in walk_no_nested(cdf.node))
+    zeros = any(isinstance(c, ast.Call) and call_name(c) in ('zeros', 'zeros_like') for c in walk_no_nested(cdf.node))
     zero_store = [s for s in walk_no_nested(cdf.node) if isinstance(s, ast.Assign) and isinstance(s.targets[0], ast.Subscript) and const_value(s.value) == 0]
     one_store = [s for s in walk_no_nested(cdf.node) if isinstance(s, ast.Assign) and isinstance(s.targets[0], ast.Subscript) and const_value(s.value) == 1]
     recognised = bool(step) and isinstance(step[0].left, ast.Name) and step[0].left.id == cdf.params[1] and (
@@ -366,6 +367,9 @@ def d3(ctx, rep):
         if isinstance(rv, ast.Call) and call_name(rv) in ('full', 'full_like', 'repeat', 'tile') and len(rv.args) >= 2:
             good = is_self_attr(rv.args[1], owner.self_name, '_constant_value') or (call_name(rv) in ('repeat', 'tile') and is_self_attr(rv.args[0], owner.self_name, '_constant_value'))
             rep.check('D3.degenerate', m, rets[0], good, f'{nm} returns the constant', f'{nm} does not return the constant value')
+            if good and call_name(rv) == 'full_like' and kwarg(rv, 'dtype', 2) is None:
+                rep.bad('D3.degenerate', m, rets[0], f'`{short(rv, 60)}` casts the constant to the dtype of `{short(rv.args[0], 20)}` (np.full_like without dtype): for integer or '
+                        'low-precision arguments the returned value is not the constant the model was fitted on', construct=f'{nm}: the constant keeps its own type')
         else:
             rep.undecided('D3.degenerate', m, rets[0] if rets else m.node.name, f'{nm}: the returned expression is not an array filled with one value')
     # per family: _is_constant holds on the dict of _fit_constant, _extract_constant returns the constant's key
